@@ -334,17 +334,38 @@ impl SparqlDatabase {
         let mut in_uri = false;
         let mut in_literal = false;
         let mut escaped = false;
+        let mut in_comment = false;
 
-        for ch in content.chars() {
+        for (offset, ch) in content.char_indices() {
             if escaped {
                 current.push(ch);
                 escaped = false;
                 continue;
             }
+            if in_comment {
+                // A comment runs to the end of its line; the line end separates tokens.
+                if ch != '\n' && ch != '\r' {
+                    continue;
+                }
+                in_comment = false;
+            }
             match ch {
                 '\\' if in_literal => {
                     current.push(ch);
                     escaped = true;
+                }
+                // The SPARQL parser keeps a quoted triple as its source text, comments
+                // included. A comment starts at a token boundary and always ends before
+                // the closing `>>`, so a `#` with no line end after it is not a comment.
+                '#' if !in_uri
+                    && !in_literal
+                    && !current.ends_with(|c: char| !c.is_whitespace() && c != '>' && c != '"')
+                    && content[offset..].contains(['\n', '\r']) =>
+                {
+                    in_comment = true;
+                    if depth > 0 {
+                        current.push(' ');
+                    }
                 }
                 '"' if !in_uri => {
                     in_literal = !in_literal;
